@@ -25,7 +25,11 @@ class Cloning:
       elif isinstance(v, gfapy.FieldArray):
         data_cpy[k] = gfapy.FieldArray(v.datatype, deepcopy(list(v)))
       elif self._field_datatype(k) == "J":
-        data_cpy[k] = json.loads(json.dumps(v))
+        try:
+          data_cpy[k] = json.loads(json.dumps(v))
+        except (TypeError, ValueError):
+          # not a JSON value (e.g. the datatype was changed afterwards)
+          data_cpy[k] = deepcopy(v)
       elif isinstance(v, gfapy.OrientedLine):
         data_cpy[k] = gfapy.OrientedLine(v.line, v.orient)
       elif isinstance(v, list) or isinstance(v, dict) or isinstance(v, str):
